@@ -4,6 +4,7 @@ import Goyang.Lemmas.IncludeCheck
 import Goyang.Model.TypesLite
 import Goyang.Lemmas.IncludeAugK
 import Goyang.Lemmas.IncludeAugOrder
+import Goyang.Lemmas.IncludeAugView
 /-
 C13, third sentence — "An included submodule contributes its data nodes, typedefs, groupings and
 identities to the including module exactly as if they were written there."
@@ -1080,5 +1081,90 @@ theorem include_eq_inline_augments_example :
 (`AugArgsPlain`: the arguments `/t:keep`, `/t:keep/ma:y` — shown as in Props/C07Bridge.lean, `String.splitOn`
 does not reduce in the kernel). -/
 example : Lemmas.Fuel.LoadedShape Ex4.R' ∧ Lemmas.Bridge.AugPosDistinct Ex4.R' := by decide +kernel
+
+/-! ### (E) the canonical dump as a function of the view -/
+
+/-- **dump_of_path_view** (piece E, first half).  The canonical dump of a module's tree is a function of
+its *path view* — which data (everything an entry records but its error list) sits at which step path
+(`Entry.getAt`: `Dir` child by name, rpc input, rpc output): two outcomes over the same registry whose
+trees of module `m` show the same data at every step path (`PEq`) and have `KeysUnique` (sibling names
+pairwise different, at most one rpc input / output, at every node — what the augment stage maintains
+in every error-free tree, `Lemmas.Bridge.noDupNames_loop`) give the same dump.  The order of the
+children in a `Dir` and the recorded errors do not matter. -/
+theorem dump_of_path_view (o o' : Outcome) (m : Mod) (hreg : o'.reg = o.reg) {t t' : Entry}
+    (ht : o.forest.tree? m.seq = some t) (ht' : o'.forest.tree? m.seq = some t')
+    (hp : Lemmas.IncludeAugDump.PEq t' t) (hk' : Spec.Tree.KeysUnique t') (hk : Spec.Tree.KeysUnique t) :
+    dumpOf o' m = dumpOf o m := by
+  unfold dumpOf
+  rw [ht, ht', hreg]
+  exact Lemmas.IncludeAugDump.dumpTree_root_peq o.reg ht ht' hp hk' hk _
+
+/-- **dump_of_view** (piece E).  From C07's flat view (`Spec.Augment.viewOf`, what
+`include_augment_loop_order` speaks about) to the dump: two outcomes over the same registry that show the
+same flat view at the locations of module `m`, whose trees have the shape conversion produces
+(`IOShape`: an rpc / action node has no `Dir` child, any other node no input / output), `KeysUnique`, and
+in which the same rpc inputs / outputs have been created (`SameIO`), give the same dump of `m`.
+`SameIO` cannot be dropped: `dump_not_function_of_flat_view`. -/
+theorem dump_of_view (o o' : Outcome) (m : Mod) (hreg : o'.reg = o.reg) {t t' : Entry}
+    (ht : o.forest.tree? m.seq = some t) (ht' : o'.forest.tree? m.seq = some t')
+    (hview : ∀ P d, Spec.Augment.viewOf o'.forest (m.seq, P) d ↔ Spec.Augment.viewOf o.forest (m.seq, P) d)
+    (hs' : Lemmas.IncludeAugView.IOShape t') (hs : Lemmas.IncludeAugView.IOShape t)
+    (hio : Lemmas.IncludeAugView.SameIO t' t) (hk' : Spec.Tree.KeysUnique t') (hk : Spec.Tree.KeysUnique t) :
+    dumpOf o' m = dumpOf o m :=
+  dump_of_path_view o o' m hreg ht ht'
+    (Lemmas.IncludeAugView.peq_of_veq (Lemmas.IncludeAugView.veq_of_viewOf ht' ht hview) hs' hs hio) hk' hk
+
+/-- **dump_not_function_of_flat_view.**  Why `dump_of_view` asks for `SameIO`: the flat view shows the input
+and output of an rpc whether or not the entry exists (RFC 7950 7.14; goyang creates it lazily, when `Find`
+passes through it), the dump prints its record only when it exists.  `rpc0` (an rpc without input) and
+`rpc1` (the same after `Find` has created the input) show the same flat view, have `KeysUnique` and
+`IOShape`, and different dumps — in any forest, over any registry. -/
+theorem dump_not_function_of_flat_view :
+    Lemmas.IncludeAugView.VEq Lemmas.IncludeAugView.rpc0 Lemmas.IncludeAugView.rpc1 ∧
+    Spec.Tree.KeysUnique Lemmas.IncludeAugView.rpc0 ∧ Spec.Tree.KeysUnique Lemmas.IncludeAugView.rpc1 ∧
+    Lemmas.IncludeAugView.IOShape Lemmas.IncludeAugView.rpc0 ∧ Lemmas.IncludeAugView.IOShape Lemmas.IncludeAugView.rpc1 ∧
+    ∀ (reg : Registry) (f f' : Forest) (nm : String),
+      dumpTree reg f nm Lemmas.IncludeAugView.rpc0 0 (entryDepth Lemmas.IncludeAugView.rpc0 + 1) [] Lemmas.IncludeAugView.rpc0 ≠
+        dumpTree reg f' nm Lemmas.IncludeAugView.rpc1 0 (entryDepth Lemmas.IncludeAugView.rpc1 + 1) [] Lemmas.IncludeAugView.rpc1 :=
+  Lemmas.IncludeAugView.view_not_enough
+
+/-! non-vacuity of (E): a container with two leaves, against the same container with the children in the
+other order and an error recorded at the root -/
+namespace ExE
+def lf (n : String) : Entry := .mk { name := n, kind := .leaf } [] [] []
+def tA : Entry := .mk { name := "c", kind := .directory, hasDir := true } [lf "a", lf "b"] [] []
+def tB : Entry := .mk { name := "c", kind := .directory, hasDir := true, errors := [Err.bare "other"] } [lf "b", lf "a"] [] []
+def oA : Outcome := { reg := Ex.R, forest := { trees := [(0, tA)] }, errors := [] }
+def oB : Outcome := { reg := Ex.R, forest := { trees := [(0, tB)] }, errors := [] }
+
+theorem peq : Lemmas.IncludeAugDump.PEq tB tA :=
+  Lemmas.IncludeAugDump.peq_of_dir_perm _ _ _ _ _ _ rfl (List.Perm.swap _ _ _) (by decide)
+
+/-- The hypotheses of `dump_of_path_view` hold of the pair, and its conclusion. -/
+example : dumpOf oB Ex.m = dumpOf oA Ex.m :=
+  dump_of_path_view oA oB Ex.m rfl (t := tA) (t' := tB) rfl rfl peq (by decide) (by decide)
+
+open Lemmas.AugmentTree (dataAt dataAt_cons) in
+/-- The hypotheses of `dump_of_view` hold of the tree and the same tree with an error recorded at the root. -/
+example : dumpOf { oA with forest := { trees := [(0, tA.addErr (Err.bare "other"))] } } Ex.m = dumpOf oA Ex.m := by
+  refine dump_of_view oA _ Ex.m rfl (t := tA) (t' := tA.addErr (Err.bare "other")) rfl rfl ?_ (by decide) (by decide) ?_
+    (by decide) (by decide)
+  · intro P d
+    rw [Lemmas.IncludeAugView.viewOf_tree (t := tA.addErr (Err.bare "other")) rfl,
+      Lemmas.IncludeAugView.viewOf_tree (t := tA) rfl]
+    cases P with
+    | nil => exact Iff.rfl
+    | cons k P => rw [dataAt_cons, dataAt_cons]; exact Iff.rfl
+  · intro P x x' hx hx'
+    cases P with
+    | nil =>
+      cases hx; cases hx'
+      exact ⟨rfl, rfl⟩
+    | cons k P =>
+      have : Spec.Augment.walk (tA.addErr (Err.bare "other")) (k :: P) = Spec.Augment.walk tA (k :: P) := rfl
+      rw [this, hx'] at hx
+      cases hx
+      exact ⟨rfl, rfl⟩
+end ExE
 
 end Goyang.Props.C13Include
